@@ -1010,6 +1010,16 @@ func (c *Ctx) checkBucketsUsed(rule string) {
 		}
 		key := c.fnKey(fn) + ":defaultBuckets"
 		c.sawFunc(c.fnKey(fn))
+		if call, isCall := stripConv(stDef.Val).(*ssa.Call); isCall {
+			// a defaulting helper: g(opts.DefaultBuckets) returns its argument exactly when that is
+			// non-nil and non-empty, and a package-level default otherwise
+			if why := c.defaultingHelper(call, fOpt); why == "" {
+				c.ok(rule, key, stDef.Pos(), "scope default = the configured buckets, replaced by the package default exactly when nil or empty (through "+staticCallee(call).Name()+")")
+			} else {
+				c.bad(rule, key, stDef.Pos(), "the scope's default buckets are not the configured ones replaced by the package default exactly when nil or empty: "+why, c.describe(stDef))
+			}
+			continue
+		}
 		if f, _ := loadedField(stDef.Val); f != fOpt {
 			c.bad(rule, key, stDef.Pos(), "the scope's default buckets are not taken from ScopeOptions.DefaultBuckets", c.describe(stDef))
 			continue
@@ -1294,4 +1304,112 @@ func (c *Ctx) checkPairsDefault(rule string) {
 	// ... and every other path has passed both tests: the first element is read only when there is one
 	c.check(reach && !other && len(allowed) >= 2, rule, key, early.Pos(), "the single open bucket is the answer exactly for a nil or empty specification",
 		"BucketPairs returns the single open bucket under a condition other than `buckets == nil || buckets.Len() < 1`: an empty specification falls through to `sorted[0]` (index out of range), or a one-bound specification is discarded and every sample is counted in one bucket", c.describe(early))
+}
+
+// defaultingHelper: call is g(<load of fOpt>) for a same-package g that returns its parameter exactly
+// on `param != nil && param.Len() >= 1` and a package-level variable otherwise. Returns "" or the reason.
+func (c *Ctx) defaultingHelper(call *ssa.Call, fOpt *types.Var) string {
+	g := staticCallee(call)
+	if g == nil || g.Blocks == nil || !c.inModule(g) {
+		return "the helper is not a function of the module"
+	}
+	pi := -1
+	for i, a := range call.Call.Args {
+		if f, _ := loadedField(stripConv(a)); f == fOpt {
+			pi = i
+		}
+	}
+	if pi < 0 || pi >= len(g.Params) {
+		return "the helper is not handed ScopeOptions.DefaultBuckets"
+	}
+	par := ssa.Value(g.Params[pi])
+	// the only tests: param ==/!= nil, param.Len() compared with 0 / 1
+	type test struct {
+		b       *ssa.BasicBlock
+		goodIdx int // successor on which the parameter is usable (non-nil resp. non-empty)
+		kind    string
+	}
+	var tests []test
+	for _, b := range g.Blocks {
+		iff, isIf := condOf(b)
+		if !isIf {
+			continue
+		}
+		op, x, y, okc := cmpOf(iff.Cond)
+		if !okc {
+			return "the helper decides on something other than its argument being nil or empty"
+		}
+		if isNilConst(x) {
+			x, y = y, x
+			op = flipCmp(op)
+		}
+		if isNilConst(y) && canon(stripConv(x)) == par && (op == token.EQL || op == token.NEQ) {
+			tests = append(tests, test{b, b2i(op == token.EQL), "nil"})
+			continue
+		}
+		lenOf := func(v ssa.Value) bool {
+			ci, isCall := stripConv(v).(*ssa.Call)
+			if !isCall {
+				return false
+			}
+			r, m := ifaceCall(ci)
+			return m != nil && m.Name() == "Len" && canon(stripConv(r)) == par
+		}
+		if lenOf(y) {
+			x, y = y, x
+			op = flipCmp(op)
+		}
+		k, isK := constInt(y)
+		if !lenOf(x) || !isK {
+			return "the helper decides on something other than its argument being nil or empty"
+		}
+		good := -1 // successor taken when Len() >= 1
+		switch {
+		case op == token.GEQ && k == 1, op == token.GTR && k == 0, op == token.NEQ && k == 0:
+			good = 0
+		case op == token.LSS && k == 1, op == token.LEQ && k == 0, op == token.EQL && k == 0:
+			good = 1
+		}
+		if good < 0 {
+			return fmt.Sprintf("the helper compares the number of buckets with %d using %s (expected: empty means Len() < 1)", k, op)
+		}
+		tests = append(tests, test{b, good, "len"})
+	}
+	nPar, nDef := 0, 0
+	for _, r := range returnsOf(g) {
+		if len(r.Results) != 1 {
+			return "unexpected result arity"
+		}
+		for _, va := range resultValues(r, 0) {
+			v := canon(stripConv(va.Val))
+			if v == par {
+				nPar++
+				okNil, okLen := false, false
+				for _, t := range tests {
+					if edgeDominates(t.b, t.goodIdx, va.At.Block()) {
+						if t.kind == "nil" {
+							okNil = true
+						} else {
+							okLen = true
+						}
+					}
+				}
+				if !okNil || !okLen {
+					return "the configured buckets are used on a path where they were not found to be non-nil and non-empty"
+				}
+				continue
+			}
+			if ld, isLd := v.(*ssa.UnOp); isLd && ld.Op == token.MUL {
+				if _, isG := ld.X.(*ssa.Global); isG {
+					nDef++
+					continue
+				}
+			}
+			return "the helper returns something other than its argument or a package-level default"
+		}
+	}
+	if nPar == 0 || nDef == 0 {
+		return "the helper does not choose between its argument and a package-level default"
+	}
+	return ""
 }
